@@ -27,7 +27,8 @@ type c10unit struct {
 	extra map[string]interface{}
 	hash  string
 	// reference results by writer failure point (-1 = healthy writer)
-	ref map[int]c10result
+	ref     map[int]c10result
+	nilVars bool // executed with a nil VarMap (functions are provided as Set globals)
 }
 
 type c10result struct {
@@ -118,6 +119,19 @@ func c10extra() map[string]interface{} {
 
 // c10exec executes unit u once (fresh variables and data) and returns the observable result.
 func c10exec(u *c10unit, failAfter int) c10result {
+	if u.nilVars {
+		w := rec.NewWriter()
+		w.FailAfter = failAfter
+		r := jx.ExecW(u.tmpl, w, nil, nil)
+		res := c10result{out: w.String()}
+		switch {
+		case r.Panic != nil:
+			res.err = fmt.Sprintf("PANIC: %v", r.Panic)
+		case r.Err != nil:
+			res.err = r.Err.Error()
+		}
+		return res
+	}
 	vars := jet.VarMap{}
 	for k, v := range u.p.Vars {
 		vars.Set(k, prog.ToGo(v))
@@ -186,12 +200,21 @@ func c10run(c *fw.Ctx, idx int) {
 		c10probeUnit("probe-content", `content=<{{yield content}}>`, prog.Value{}, false),
 		c10probeUnit("probe-vars", `vars=<{{isset(x)}}{{isset(y)}}{{isset(z)}}{{isset(outer)}}{{isset(p)}}{{isset(q)}}{{isset(v1)}}{{isset(v2)}}{{isset(v3)}}{{isset(i)}}{{isset(e)}}>`, prog.Value{}, false),
 		c10probeUnit("probe-try", `{{try}}in-try{{end}}|{{try}}{{nosuch}}{{catch}}caught{{end}}`, prog.Value{}, false),
+		c10probeUnit("nilvars-letglobal", `{{ s := 0 }}{{ letg("leakvar", "LEAKED") }}[{{ leakvar }}]`, prog.Value{}, false),
+		c10probeUnit("nilvars-probe", `[{{ isset(leakvar) }}{{ isset(s) }}]`, prog.Value{}, false),
 		c10probeUnit("probe-block", `{{block cb(p="d")}}({{p}}{{yield content}}){{content}}default{{end}}`, prog.Value{}, false),
 	)
 	for _, u := range units {
 		u.extra = c10extra()
 		u.extra["xs"] = []string{"e1", "e2"}
 		u.set = u.p.NewSet(false, jx.NoEscape)
+		if strings.HasPrefix(u.name, "nilvars") {
+			u.nilVars = true
+			u.set.AddGlobalFunc("letg", func(a jet.Arguments) reflect.Value {
+				a.Runtime().LetGlobal(fmt.Sprint(a.Get(0).Interface()), fmt.Sprint(a.Get(1).Interface()))
+				return reflect.ValueOf("")
+			})
+		}
 		t, err, pan := jx.Get(u.set, u.p.Main)
 		if err != nil || pan != nil {
 			c.Begin(idx, map[string]interface{}{"unit": u.name, "files": u.p.Sources(false)})
